@@ -1,2 +1,609 @@
-(* Model for C08 — to be written. Executable definitions only, no proofs. *)
-From WI Require Import Lib.Base Lib.Info.
+(* Model for C08 — resource use is bounded by input size.
+   Instrumented (allocation-logging) byte-level models of the allocation decisions of
+     internal/file/info.go            (Inspect: io.LimitReader + io.ReadAll)
+     internal/ssh1/key.go             (ParsePrivateKey, readMPInt, readString; repaired F4)
+     internal/openpgp/packet/packet.go, opaque.go
+                                      (readLength, readHeader, spanReader, partialLengthReader,
+                                       readMPI, OpaqueReader.Next = header + io.ReadAll of the body,
+                                       which is also what UserId.parse / UserAttribute.parse do)
+     internal/asn1struct/raw.go       (ParseRaw over encoding/asn1's tag-and-length reader)
+     internal/util/base64.go          (DecodeAnyBase64: make(DecodedLen))
+   and, as they are (third-party, not repaired):
+     github.com/edutko/jks-go keystore/jks.go   (readJKSHeader, readJKSEntries, readMAC)
+     github.com/jfrog/go-rpm lead.go, header.go (ReadPackageLead, ReadPackageHeader)
+   Executable definitions only, no proofs.
+
+   Every modelled  make([]T, n)  adds an entry  Make (n * sizeof T) rem  to the log, where rem is
+   the number of input bytes not yet consumed at that point; buffers that grow while bytes
+   arrive (io.ReadAll, append) add  Grow bytes.  The cost of a run is the sum of its log. *)
+From WI Require Import Lib.Base Lib.Info Model.Base64.
+From WI Require gen.FileTypes.
+Open Scope N_scope.
+
+(* ------------------------------------------------------------------------------------- *)
+(* the allocation log                                                                     *)
+(* ------------------------------------------------------------------------------------- *)
+Inductive alloc : Type :=
+| Make (sz rem : N)      (* make([]T, k): sz = k * sizeof T bytes requested, rem input bytes left *)
+| Grow (sz : N).         (* buffer growth driven by the bytes that actually arrived *)
+
+Definition alloc_sz (a : alloc) : N := match a with Make s _ => s | Grow s => s end.
+Definition log := list alloc.
+Fixpoint log_cost (l : log) : N := match l with [] => 0 | a :: r => alloc_sz a + log_cost r end.
+
+Definition cost (A : Type) : Type := (A * log)%type.
+Definition cret {A} (a : A) : cost A := (a, []).
+Definition cbind {A B} (m : cost A) (f : A -> cost B) : cost B :=
+  let '(a, l1) := m in let '(b, l2) := f a in (b, l1 ++ l2).
+Definition cost_of {A} (m : cost A) : N := log_cost (snd m).
+Definition value_of {A} (m : cost A) : A := fst m.
+
+(* results inside the log: an error or panic stops the computation, the log so far is kept *)
+Definition cres (A : Type) : Type := cost (result A).
+Definition rret {A} (a : A) : cres A := (Ok a, []).
+Definition rfail {A} (e : string) : cres A := (Err e, []).
+Definition rpanic {A} (e : string) : cres A := (Panic e, []).
+Arguments rfail {A} e%string.
+Arguments rpanic {A} e%string.
+Definition rbind {A B} (m : cres A) (f : A -> cres B) : cres B :=
+  match m with
+  | (Ok a, l1) => let '(b, l2) := f a in (b, l1 ++ l2)
+  | (Err e, l1) => (Err e, l1)
+  | (Panic s, l1) => (Panic s, l1)
+  end.
+Notation "'let+' x ':=' m 'in' k" := (rbind m (fun x => k))
+  (at level 200, x pattern, m at level 100, k at level 200, right associativity).
+Definition tick {A} (a : alloc) (k : cres A) : cres A := let '(b, l) := k in (b, a :: l).
+Definition logged {A} (l0 : log) (k : cres A) : cres A := let '(b, l) := k in (b, l0 ++ l).
+Definition rmap {A B} (f : A -> B) (m : cres A) : cres B :=
+  (match fst m with Ok a => Ok (f a) | Err e => Err e | Panic e => Panic e end, snd m).
+
+(* a made-from-length allocation is "trusting" when it asks for more than a fixed constant
+   and more than the bytes that are left *)
+Definition fixed_max : N := 8192.
+Definition alloc_trusting (a : alloc) : bool :=
+  match a with Make s r => (r <? s) && (fixed_max <? s) | Grow _ => false end.
+Definition log_trusting (l : log) : bool := existsb alloc_trusting l.
+
+(* ------------------------------------------------------------------------------------- *)
+(* byte readers                                                                           *)
+(* ------------------------------------------------------------------------------------- *)
+Fixpoint lenN_acc {A} (l : list A) (acc : N) : N :=
+  match l with [] => acc | _ :: r => lenN_acc r (acc + 1) end.
+Definition lenN {A} (l : list A) : N := lenN_acc l 0.
+
+(* the first n elements and the rest; None when fewer than n are present *)
+Fixpoint split_at (n : N) (l : bytes) {struct l} : option (bytes * bytes) :=
+  if n =? 0 then Some ([], l) else
+  match l with
+  | [] => None
+  | x :: r => match split_at (n - 1) r with Some (a, b) => Some (x :: a, b) | None => None end
+  end.
+
+(* io.ReadFull(r, buf[:n]) on a bytes.Reader: n bytes or an error (EOF / unexpected EOF) *)
+Definition read_full (n : N) (r : bytes) : cres (bytes * bytes) :=
+  match split_at n r with Some p => rret p | None => rfail "unexpected EOF" end.
+
+Definition be16 (b : bytes) : N := be_to_N (take 2 b).
+Definition be32 (b : bytes) : N := be_to_N (take 4 b).
+
+(* ------------------------------------------------------------------------------------- *)
+(* io.ReadAll and append growth                                                           *)
+(* ------------------------------------------------------------------------------------- *)
+(* runtime.growslice for byte slices without the size-class rounding: double below 256,
+   then old + (old + 768)/4 *)
+Definition grow_cap (c : N) : N := if c <? 256 then 2 * c else c + (c + 768) / 4.
+
+(* io.ReadAll: b := make([]byte, 0, 512); after every Read, if len(b) == cap(b) the buffer is
+   re-allocated with the next capacity.  m = number of bytes the reader delivers.
+   Returns the capacities allocated. *)
+Fixpoint readall_caps (fuel : nat) (c m : N) : list N :=
+  match fuel with
+  | O => []
+  | S f => if c <=? m then grow_cap c :: readall_caps f (grow_cap c) m else []
+  end.
+Definition readall_log (m : N) : log :=
+  map Grow (512 :: readall_caps (N.to_nat (N.size m)* 4 + 8) 512 m).
+Definition readall_cost (m : N) : N := log_cost (readall_log m).
+
+(* append of one element (of size sz) to a slice holding c elements built by append alone:
+   a new backing array when c is 0 or a power of two (capacity doubling) *)
+Definition is_pow2 (c : N) : bool := negb (c =? 0) && (N.land c (c - 1) =? 0).
+Definition append_log (sz c : N) : log :=
+  if c =? 0 then [Grow sz] else if is_pow2 c then [Grow (sz * 2 * c)] else [].
+
+(* ------------------------------------------------------------------------------------- *)
+(* file.Inspect: the read                                                                 *)
+(* ------------------------------------------------------------------------------------- *)
+(* an input: a function from positions to bytes with an optional length (None: endless) *)
+Record stream := mkstream { s_at : nat -> N; s_len : option nat }.
+Definition max_read_size : N := gen.FileTypes.max_read_size.
+
+Definition read_len (s : stream) : nat :=
+  match s_len s with
+  | None => N.to_nat max_read_size
+  | Some n => Nat.min n (N.to_nat max_read_size)
+  end.
+(* info.go:41-42  r := io.LimitReader(f, MaxReadSize); data, err := io.ReadAll(r) *)
+Definition read_input (s : stream) : bytes := map (s_at s) (seq 0 (read_len s)).
+Definition stream_of (data : bytes) : stream := mkstream (fun i => nth i data 0) (Some (length data)).
+Definition read_input_cost (n : N) : N := readall_cost (N.min n max_read_size).
+
+(* ------------------------------------------------------------------------------------- *)
+(* SSH1 private keys (internal/ssh1/key.go)                                               *)
+(* ------------------------------------------------------------------------------------- *)
+Definition ssh1_header : bytes := bs "SSH PRIVATE KEY FILE FORMAT 1.1" ++ [10; 0].
+
+(* big.Int.SetBytes(b).Bytes(): leading zero bytes dropped *)
+Fixpoint strip0 (b : bytes) : bytes := match b with 0 :: r => strip0 r | _ => b end.
+
+(* key.go:132-146 readMPInt; [checked] = false is the code before the repair of F4
+   (make([]byte, n) without looking at r.Len()) *)
+Definition ssh1_read_mpint (checked : bool) (r : bytes) : cres (bytes * bytes) :=
+  tick (Make 2 (lenN r))
+  (let+ (l, r1) := read_full 2 r in
+   let n := (be16 l + 7) / 8 in
+   if checked && (lenN r1 <? n) then rfail "unexpected EOF" else
+   tick (Make n (lenN r1))
+   (let+ (b, r2) := read_full n r1 in rret (strip0 b, r2))).
+
+(* key.go:148-162 readString: the length-prefixed buffer and its copy string(b) *)
+Definition ssh1_read_string (checked : bool) (r : bytes) : cres (bytes * bytes) :=
+  tick (Make 4 (lenN r))
+  (let+ (l, r1) := read_full 4 r in
+   let n := be32 l in
+   if checked && (lenN r1 <? n) then rfail "unexpected EOF" else
+   tick (Make n (lenN r1))
+   (let+ (b, r2) := read_full n r1 in
+    tick (Make n (lenN r1)) (rret (b, r2)))).
+
+Record ssh1_key := mk_ssh1 { k_comment : bytes; k_n : bytes; k_e : bytes; k_d : bytes; k_q : bytes; k_p : bytes }.
+
+(* the private part: abab check, d, qInv, q, p (key.go:64-101) *)
+Definition ssh1_private (checked : bool) (comment n e : bytes) (r : bytes) : cres ssh1_key :=
+  tick (Make 4 (lenN r))
+  (let+ (abab, r1) := read_full 4 r in
+   if negb ((nth 0 abab 0 =? nth 2 abab 0) && (nth 1 abab 0 =? nth 3 abab 0)) then rfail "corrupted" else
+   let+ (d, r2) := ssh1_read_mpint checked r1 in
+   let+ (_, r3) := ssh1_read_mpint checked r2 in
+   tick (Make 16 (lenN r3))
+   (let+ (q, r4) := ssh1_read_mpint checked r3 in
+    let+ (p, _) := ssh1_read_mpint checked r4 in
+    rret (mk_ssh1 comment n e d q p))).
+
+(* ParsePrivateKey(data, "").  [plain] is the 3DES-CBC decryption of the encrypted part under
+   the empty passphrase (an oracle the harness records with the ssh1.VerifDecrypt hook). *)
+Definition ssh1_parse_gen (checked : bool) (data plain : bytes) : cres ssh1_key :=
+  if negb (prefix_of ssh1_header data) then rfail "invalid SSH1 private key" else
+  let r := drop (length ssh1_header) data in
+  tick (Make 9 (lenN r))
+  (let+ (fixed, r1) := read_full 9 r in
+   let cipher := nth 0 fixed 0 in
+   let+ (n, r2) := ssh1_read_mpint checked r1 in
+   let+ (e, r3) := ssh1_read_mpint checked r2 in
+   let+ (comment, r4) := ssh1_read_string checked r3 in
+   if cipher =? 3 then
+     (* ciphertext, _ := io.ReadAll(r); plaintext := make([]byte, len(ciphertext)) *)
+     let ct := lenN r4 in
+     logged (readall_log ct)
+     (if negb (ct mod 8 =? 0) then rfail "corrupted" else
+      if negb (lenN plain =? ct) then rfail "oracle: plaintext missing" else
+      tick (Make ct ct) (ssh1_private checked comment n e plain))
+   else ssh1_private checked comment n e r4).
+Definition ssh1_parse := ssh1_parse_gen true.
+
+(* ------------------------------------------------------------------------------------- *)
+(* OpenPGP packet framing (internal/openpgp/packet/packet.go, opaque.go)                  *)
+(* ------------------------------------------------------------------------------------- *)
+(* packet.go:42-71 readLength: (length, isPartial) and the rest *)
+Definition pgp_read_length (r : bytes) : cres (N * bool * bytes) :=
+  tick (Make 4 (lenN r))
+  (let+ (b, r1) := read_full 1 r in
+   let b0 := nth 0 b 0 in
+   if b0 <? 192 then rret (b0, false, r1)
+   else if b0 <? 224 then
+     let+ (c, r2) := read_full 1 r1 in
+     rret ((b0 - 192) * 256 + nth 0 c 0 + 192, false, r2)
+   else if b0 <? 255 then rret (N.shiftl 1 (N.land b0 31), true, r1)
+   else
+     let+ (c, r2) := read_full 4 r1 in
+     rret (be32 c, false, r2)).
+
+(* packet.go:372-390 readMPI: the buffer is made from the 16-bit bit count before reading *)
+Definition pgp_read_mpi (r : bytes) : cres (bytes * N * bytes) :=
+  tick (Make 2 (lenN r))
+  (let+ (b, r1) := read_full 2 r in
+   let bits := be16 b in
+   let n := (bits + 7) / 8 in
+   tick (Make n (lenN r1))
+   (let+ (m, r2) := read_full n r1 in rret (m, bits, r2))).
+
+(* what readHeader hands to the packet parser *)
+Inductive body_reader : Type :=
+| Span (n : N)             (* spanReader{r, n}: exactly n bytes or ErrUnexpectedEOF *)
+| Partial (rem : N)        (* partialLengthReader: rem bytes, then another length *)
+| ToEOF.                   (* old format, length type 3: the rest of the stream *)
+
+(* packet.go:188-236 readHeader; Err "EOF" = io.EOF before the first octet *)
+Definition pgp_read_header (r : bytes) : cres (N * body_reader * bytes) :=
+  tick (Make 4 (lenN r))
+  (match r with
+   | [] => rfail "EOF"
+   | b0 :: r1 =>
+       if N.land b0 128 =? 0 then rfail "tag byte does not have MSB set"
+       else if N.land b0 64 =? 0 then
+         let tag := N.shiftr (N.land b0 63) 2 in
+         let lt := N.land b0 3 in
+         if lt =? 3 then rret (tag, ToEOF, r1)
+         else
+           let+ (lb, r2) := read_full (N.shiftl 1 lt) r1 in
+           rret (tag, Span (be_to_N lb), r2)
+       else
+         let tag := N.land b0 63 in
+         let+ (len, partial, r2) := pgp_read_length r1 in
+         rret (tag, if partial then Partial len else Span len, r2)
+   end).
+
+(* io.ReadAll(contents): the bytes delivered, whether the reader ended with an error, the rest *)
+Fixpoint pgp_partial_body (fuel : nat) (rem : N) (r : bytes) (acc : bytes) : cost (bytes * bool * bytes) :=
+  match fuel with
+  | O => cret (acc, false, r)
+  | S f =>
+      match split_at rem r with
+      | None => cret (acc ++ r, false, [])                     (* short: ErrUnexpectedEOF *)
+      | Some (chunk, r1) =>
+          match pgp_read_length r1 with
+          | (Ok (len, partial, r2), l) =>
+              if partial then
+                let '(x, l2) := pgp_partial_body f len r2 (acc ++ chunk) in (x, l ++ l2)
+              else
+                match split_at len r2 with
+                | None => (acc ++ chunk ++ r2, false, [], l)
+                | Some (last, r3) => (acc ++ chunk ++ last, true, r3, l)
+                end
+          | (_, l) => (acc ++ chunk, false, [], l)             (* length octets missing *)
+          end
+      end
+  end.
+
+Definition pgp_read_body (br : body_reader) (r : bytes) : cost (bytes * bool * bytes) :=
+  match br with
+  | Span n =>
+      match split_at n r with
+      | Some (b, r1) => cret (b, true, r1)
+      | None => cret (r, false, [])
+      end
+  | ToEOF => cret (r, true, [])
+  | Partial rem => pgp_partial_body (S (length r)) rem r []
+  end.
+
+(* opaque.go:78-89 OpaqueReader.Next.  On a body error the rest of the packet is consumed
+   (consumeAll: a 1024-byte buffer) and the error returned. *)
+Definition pgp_opaque_next (r : bytes) : cres (N * bytes * bytes) :=
+  let+ (tag, br, r1) := pgp_read_header r in
+  let '((body, ok, r2), l) := pgp_read_body br r1 in
+  (if ok then Ok (tag, body, r2) else Err "unexpected EOF",
+   l ++ readall_log (lenN body) ++ (if ok then [] else [Make 1024 0])).
+
+(* for { op, err := or.Next(); if err != nil break } : packets and whether the final error
+   was something other than io.EOF *)
+Fixpoint pgp_opaque_loop (fuel : nat) (r : bytes) : cost (list (N * bytes) * bool) :=
+  match fuel with
+  | O => cret ([], true)
+  | S f =>
+      match pgp_opaque_next r with
+      | (Ok (tag, body, r1), l) =>
+          let '((ps, e), l2) := pgp_opaque_loop f r1 in ((tag, body) :: ps, e, l ++ l2)
+      | (Err e, l) => ([], negb (String.eqb e "EOF"), l)
+      | (Panic _, l) => ([], true, l)
+      end
+  end.
+Definition pgp_opaque_all (data : bytes) := pgp_opaque_loop (S (length data)) data.
+
+(* ------------------------------------------------------------------------------------- *)
+(* DER: asn1struct.ParseRaw over encoding/asn1 (go1.23.5 parseTagAndLength)               *)
+(* ------------------------------------------------------------------------------------- *)
+(* parseBase128Int: value, rest and number of octets read; at most 5 octets, minimal, below 2^31 *)
+Fixpoint der_base128 (fuel : nat) (shifted : N) (acc : N) (r : bytes) : result (N * bytes * N) :=
+  match fuel with
+  | O => Err "base 128 integer too large"
+  | S f =>
+      match r with
+      | [] => Err "truncated base 128 integer"
+      | b :: r1 =>
+          if shifted =? 5 then Err "base 128 integer too large"
+          else if (shifted =? 0) && (b =? 128) then Err "integer is not minimally encoded"
+          else
+            let acc' := acc * 128 + N.land b 127 in
+            if N.land b 128 =? 0 then
+              (if 2147483647 <? acc' then Err "base 128 integer too large" else Ok (acc', r1, shifted + 1))
+            else der_base128 f (shifted + 1) acc' r1
+      end
+  end.
+
+Fixpoint der_long_length (k : nat) (acc : N) (r : bytes) : result (N * bytes) :=
+  match k with
+  | O => if acc <? 128 then Err "non-minimal length" else Ok (acc, r)
+  | S k' =>
+      match r with
+      | [] => Err "truncated tag or length"
+      | b :: r1 =>
+          if 8388608 <=? acc then Err "length too large"
+          else
+            let acc' := acc * 256 + b in
+            if acc' =? 0 then Err "superfluous leading zeros in length" else der_long_length k' acc' r1
+      end
+  end.
+
+Record der_hdr := mk_hdr { h_class : N; h_tag : N; h_compound : bool; h_len : N; h_hdrlen : N }.
+
+(* parseTagAndLength at offset 0 of r; an empty r is parseField's "sequence truncated" *)
+Definition der_tag_and_length (r : bytes) : result (der_hdr * bytes) :=
+  match r with
+  | [] => Err "sequence truncated"
+  | b :: r1 =>
+      let cls := b / 64 in
+      let comp := negb (N.land b 32 =? 0) in
+      let t5 := N.land b 31 in
+      let* (tag, r2, tb) :=
+        (if t5 =? 31 then
+           let* (t, r2, k) := der_base128 6 0 0 r1 in
+           if t <? 31 then Err "non-minimal tag" else Ok (t, r2, k)
+         else Ok (t5, r1, 0)) in
+      match r2 with
+      | [] => Err "truncated tag or length"
+      | lb :: r3 =>
+          if N.land lb 128 =? 0 then Ok (mk_hdr cls tag comp (N.land lb 127) (2 + tb), r3)
+          else
+            let nb := N.land lb 127 in
+            if nb =? 0 then Err "indefinite length found (not DER)"
+            else
+              let* (len, r4) := der_long_length (N.to_nat nb) 0 r3 in
+              Ok (mk_hdr cls tag comp len (2 + tb + nb), r4)
+      end
+  end.
+
+Inductive raw : Type := Raw (cls tag : N) (content full : N) (children : list raw).
+
+Definition sizeof_raw : N := 88.       (* asn1struct.Raw: 2 ints + 2 byte slices + 1 slice *)
+Definition sizeof_rawvalue : N := 80.  (* asn1.RawValue boxed by Unmarshal's reflection *)
+
+(* append(items, item) on a slice with c elements and capacity cap: a new backing array of
+   twice the capacity (1 for the first element) when the slice is full *)
+Definition append_grow (sz c cap : N) : N * log :=
+  if c =? cap then (let cap' := if cap =? 0 then 1 else 2 * cap in (cap', [Grow (sz * cap')]))
+  else (cap, []).
+
+(* raw.go:12-36 ParseRaw.  Bytes/FullBytes are sub-slices of the input (no allocation);
+   [items] grows by append; every Unmarshal boxes one RawValue.  [c], [cap] = length and
+   capacity of items at this level. *)
+Fixpoint der_parse_items (fuel : nat) (rest : bytes) (c cap : N) : cres (list raw) :=
+  match fuel with
+  | O => rfail "fuel"
+  | S f =>
+      match der_tag_and_length rest with
+      | Err e => rfail e
+      | Panic e => rpanic e
+      | Ok (h, r1) =>
+          match split_at (h_len h) r1 with
+          | None => rfail "data truncated"
+          | Some (content, rest') =>
+              tick (Grow sizeof_rawvalue)
+              (let+ children := (if h_compound h then der_parse_items f content 0 0 else rret []) in
+               let item := Raw (h_class h) (h_tag h) (h_len h) (h_hdrlen h + h_len h) children in
+               let '(cap', lg) := append_grow sizeof_raw c cap in
+               logged lg
+               (match rest' with
+                | [] => rret [item]
+                | _ => rmap (cons item) (der_parse_items f rest' (c + 1) cap')
+                end))
+          end
+      end
+  end.
+Definition der_parse_raw (data : bytes) : cres (list raw) := der_parse_items (S (length data)) data 0 0.
+
+Fixpoint raw_depth (r : raw) : nat :=
+  match r with Raw _ _ _ _ ch => S (fold_right (fun x m => Nat.max (raw_depth x) m) O ch) end.
+Definition raws_depth (l : list raw) : nat := fold_right (fun x m => Nat.max (raw_depth x) m) O l.
+
+(* ------------------------------------------------------------------------------------- *)
+(* base64 (internal/util/base64.go DecodeAnyBase64)                                       *)
+(* ------------------------------------------------------------------------------------- *)
+(* encoding/base64 DecodedLen *)
+Definition b64_decoded_len (e : enc) (n : N) : N :=
+  if enc_padded e then n / 4 * 3 else n * 6 / 8.
+
+Definition b64_decode_any (data : bytes) : cres bytes :=
+  match which_base64 data with
+  | None => rfail "invalid base64"
+  | Some e =>
+      tick (Make (b64_decoded_len e (lenN data)) (lenN data))
+      (match std_decode e data with Some d => rret d | None => rfail "invalid base64" end)
+  end.
+
+(* ------------------------------------------------------------------------------------- *)
+(* jks-go keystore.InsecureParse for the JKS / JCEKS magics — third-party, as it is       *)
+(* ------------------------------------------------------------------------------------- *)
+Definition jks_magic : bytes := [254; 237; 254; 237].
+Definition jceks_magic : bytes := [206; 206; 206; 206].
+
+(* jks.go readLength(r, size) + make([]byte, l) + io.ReadFull: the allocation precedes the read *)
+Definition jks_read_blob (w : N) (copy : bool) (r : bytes) : cres (bytes * bytes) :=
+  tick (Make w (lenN r))
+  (let+ (lb, r1) := read_full w r in
+   let l := be_to_N lb in
+   tick (Make l (lenN r1))
+   (let+ (b, r2) := read_full l r1 in
+    if copy then tick (Make l (lenN r1)) (rret (b, r2)) else rret (b, r2))).
+
+Definition sizeof_jks_entry : N := 184.  (* keystore.Entry *)
+Definition sizeof_jks_cert : N := 40.    (* keystore.Certificate: string + []byte *)
+
+Fixpoint jks_read_certs (fuel : nat) (count : N) (c : N) (r : bytes) : cres bytes :=
+  match fuel with
+  | O => rfail "fuel"
+  | S f =>
+      if count =? 0 then rret r else
+      let+ (_, r1) := jks_read_blob 2 true r in
+      let+ (_, r2) := jks_read_blob 4 false r1 in
+      logged (append_log sizeof_jks_cert c)
+        (jks_read_certs f (count - 1) (c + 1) r2)
+  end.
+
+(* readJKSEntries: returns the number of entries; Err "secret" when a SecretKeyEntry is met
+   (java.UnmarshalReader: a Java object stream reader outside this model) *)
+Fixpoint jks_read_entries (fuel : nat) (expected : N) (c : N) (r : bytes) : cres (N * bytes) :=
+  match fuel with
+  | O => rfail "fuel"
+  | S f =>
+      if expected =? 0 then rret (c, r) else
+      tick (Make 4 (lenN r))
+      (let+ (tb, r1) := read_full 4 r in
+       let typ := be32 tb in
+       let+ (_, r2) := jks_read_blob 2 true r1 in
+       tick (Make 8 (lenN r2))
+       (let+ (_, r3) := read_full 8 r2 in
+        let+ r4 :=
+          (if typ =? 1 then
+             let+ (_, r4) := jks_read_blob 4 false r3 in
+             tick (Make 4 (lenN r4))
+             (let+ (cb, r5) := read_full 4 r4 in
+              jks_read_certs (S (length r5)) (be32 cb) 0 r5)
+           else if typ =? 2 then jks_read_certs (S (length r3)) 1 0 r3
+           else if typ =? 3 then rfail "secret"
+           else rret r3) in
+        logged (append_log sizeof_jks_entry c)
+          (jks_read_entries f (expected - 1) (c + 1) r4)))
+  end.
+
+Definition jks_parse (data : bytes) : cres N :=
+  (* detectFormat reads data[:4]: with fewer than 4 bytes that panics unless the capacity allows it;
+     the JKS rows are reached only behind the 4-byte magic, shorter inputs are not exercised *)
+  if Nat.ltb (length (take 4 data)) 4 then rfail "short" else
+  if negb (prefix_of jks_magic data || prefix_of jceks_magic data) then rfail "not a JKS/JCEKS stream (PKCS#12 path is outside the model)" else
+  tick (Make 12 (lenN data))
+  (let+ (h, r1) := read_full 12 data in
+   let+ (n, r2) := jks_read_entries (S (length r1)) (be32 (drop 8 h)) 0 r1 in
+   tick (Make 20 (lenN r2))
+   (let+ (_, r3) := read_full 20 r2 in
+    match r3 with [] => rret n | _ => rfail "possible corruption: unexpected data after MAC" end)).
+
+(* ------------------------------------------------------------------------------------- *)
+(* go-rpm ReadPackageFile (lead + two headers) — third-party, as it is                    *)
+(* ------------------------------------------------------------------------------------- *)
+(* r.Read(p) on a bytes.Reader with len(p) = n: io.EOF when nothing is left (even for n = 0),
+   else min(n, remaining) bytes; the callers compare the count with n *)
+Definition rpm_read (n : N) (r : bytes) : cres (bytes * bytes) :=
+  match r with
+  | [] => rfail "EOF"
+  | _ => match split_at n r with Some p => rret p | None => rfail "incorrect length" end
+  end.
+
+Definition rpm_max_header : N := 33554432.
+Definition sizeof_index_entry : N := 48.
+
+Record rpm_index := mk_ix { ix_tag : N; ix_type : N; ix_off : N; ix_count : N }.
+
+Fixpoint rpm_indexes (k : nat) (storelen : N) (ib : bytes) : cres (list rpm_index) :=
+  match k with
+  | O => rret []
+  | S k' =>
+      let ix := mk_ix (be32 ib) (be32 (drop 4 ib)) (be32 (drop 8 ib)) (be32 (drop 12 ib)) in
+      if storelen <=? ix_off ix then rfail "index is out of range"
+      else let+ tl := rpm_indexes k' storelen (drop 16 ib) in rret (ix :: tl)
+  end.
+
+(* string items: scan to NUL; o may run past the store (then store[o:o+j] panics) *)
+Fixpoint rpm_scan_nul (s : bytes) (j : N) : N :=
+  match s with [] => j | b :: r => if b =? 0 then j else rpm_scan_nul r (j + 1) end.
+
+Fixpoint rpm_strings (fuel : nat) (count : N) (store : bytes) (slen : N) (o : N) : cres unit :=
+  match fuel with
+  | O => rret tt
+  | S f =>
+      if count =? 0 then rret tt else
+      if slen <? o then rpanic "slice bounds out of range (header.go string value)" else
+      let j := rpm_scan_nul (drop (N.to_nat o) store) 0 in
+      if j =? slen then rfail "string value is out of range" else
+      tick (Grow j) (rpm_strings f (count - 1) store slen (o + j + 1))
+  end.
+
+(* the value of one index entry: header.go:133-231 *)
+Definition rpm_value (store : bytes) (slen : N) (ix : rpm_index) : cres unit :=
+  let t := ix_type ix in
+  let o := ix_off ix in
+  let n := ix_count ix in
+  (* vals := make([]T, n); the range check happens item by item afterwards *)
+  let ints (w : N) :=
+    tick (Make (n * w) (slen - o))
+      (if negb (n =? 0) && (slen <? o + n * w) then rfail "value is out of range" else rret tt) in
+  if (t =? 1) || (t =? 2) then ints 1
+  else if t =? 3 then ints 2
+  else if t =? 4 then ints 4
+  else if t =? 5 then ints 8
+  else if t =? 7 then
+    if slen <? o + n then rfail "[]byte value is out of range" else tick (Make n (slen - o)) (rret tt)
+  else if (t =? 6) || (t =? 8) || (t =? 9) then
+    if slen <? o + n then rfail "[]string value is out of range"
+    else tick (Make (16 * n) (slen - o)) (rpm_strings (S (N.to_nat n)) n store slen o)
+  else if t =? 0 then rret tt
+  else rfail "unknown index data type".
+
+Fixpoint rpm_values (store : bytes) (slen : N) (ixs : list rpm_index) : cres unit :=
+  match ixs with
+  | [] => rret tt
+  | ix :: tl => let+ _ := rpm_value store slen ix in rpm_values store slen tl
+  end.
+
+(* header.go:59-252 ReadPackageHeader *)
+Definition rpm_read_header (r : bytes) : cres (list rpm_index * bytes) :=
+  tick (Make 16 (lenN r))
+  (let+ (h, r1) := rpm_read 16 r in
+   if negb (bytes_eqb (take 3 h) [142; 173; 232]) then rfail "invalid RPM header descriptor" else
+   let count := be32 (drop 8 h) in
+   let slen := be32 (drop 12 h) in
+   if rpm_max_header <? slen then rfail "RPM header section is incorrect length" else
+   if rpm_max_header <? count * 16 then rfail "index count exceeds header size" else
+   tick (Make (sizeof_index_entry * count) (lenN r1))
+   (tick (Make (16 * count) (lenN r1))
+    (let+ (ib, r2) := rpm_read (16 * count) r1 in
+     let+ ixs := rpm_indexes (N.to_nat count) slen ib in
+     tick (Make slen (lenN r2))
+     (let+ (store, r3) := rpm_read slen r2 in
+      let+ _ := rpm_values store slen ixs in
+      let pad := 8 - slen mod 8 in
+      if (0 <? pad) && (pad <? 8) then
+        tick (Make pad (lenN r3))
+        (let+ (_, r4) := rpm_read pad r3 in rret (ixs, r4))
+      else rret (ixs, r3))))).
+
+(* lead.go:45-79 ReadPackageLead; packagefile.go:38-68 ReadPackageFile *)
+Definition rpm_parse (data : bytes) : cres (list (list rpm_index)) :=
+  tick (Make 96 (lenN data))
+  (let+ (lead, r1) := rpm_read 96 data in
+   if negb (bytes_eqb (take 4 lead) [237; 171; 238; 219]) then rfail "RPM file descriptor is invalid" else
+   let major := nth 4 lead 0 in
+   tick (Make 66 (lenN r1))
+   (if (major <? 3) || (4 <? major) then rfail "unsupported RPM package version" else
+    let+ (h1, r2) := rpm_read_header r1 in
+    let+ (h2, _) := rpm_read_header r2 in
+    rret [h1; h2])).
+
+(* ------------------------------------------------------------------------------------- *)
+(* the components by name, for the case runner                                            *)
+(* ------------------------------------------------------------------------------------- *)
+Definition strip_result {A} (m : cres A) : cres unit :=
+  (match fst m with Ok _ => Ok tt | Err e => Err e | Panic e => Panic e end, snd m).
+
+(* the log of component [comp] on [data] (aux: the SSH1 plaintext oracle); None = no model *)
+Definition component_log (comp data aux : bytes) : option log :=
+  if bytes_eqb comp (bs "readall") then Some (readall_log (N.min (lenN data) max_read_size))
+  else if bytes_eqb comp (bs "ssh1") then Some (snd (ssh1_parse data aux))
+  else if bytes_eqb comp (bs "pgplen") then Some (snd (pgp_read_length data))
+  else if bytes_eqb comp (bs "pgpmpi") then Some (snd (pgp_read_mpi data))
+  else if bytes_eqb comp (bs "pgpopaque") then Some (snd (pgp_opaque_all data))
+  else if bytes_eqb comp (bs "der") then Some (snd (der_parse_raw data))
+  else if bytes_eqb comp (bs "b64") then Some (snd (b64_decode_any data))
+  else if bytes_eqb comp (bs "jks") then Some (snd (jks_parse data))
+  else if bytes_eqb comp (bs "rpm") then Some (snd (rpm_parse data))
+  else None.
